@@ -119,11 +119,53 @@ def one_image(args):
                         pass
     return res
 
+def unserialisable_image(d):
+    """a WOZ2 image a2kit reads but refuses to serialise (an extra chunk before TRKS moves the track bits off their usual offset):
+    every modifying command then fails while saving, after the file system work is done -- the file must still be untouched"""
+    p = os.path.join(d, 'odd.woz')
+    if cli(['mkdsk', '-o', 'dos33', '-v', '254', '-t', 'woz2', '-k', '5.25in', '-d', p])[0] != 0:
+        return []
+    cli(['put', '-d', p, '-f', 'HELLO', '-t', 'txt'], stdin=b'HELLO\n')
+    cli(['put', '-d', p, '-f', 'OTHER', '-t', 'txt'], stdin=b'OTHER\n')
+    b = bytearray(open(p, 'rb').read())
+    if b[248:252] != b'TRKS':
+        return []
+    extra = b'XTRA' + (504).to_bytes(4, 'little') + bytes(504)
+    b[248:248] = extra
+    for t in range(160):                       # TRK records: starting block moves by one
+        off = 248 + 512 + 8 + t * 8
+        sb = int.from_bytes(b[off:off + 2], 'little')
+        if sb:
+            b[off:off + 2] = (sb + 1).to_bytes(2, 'little')
+    b[8:12] = bytes(4)                         # CRC 0 = not checked
+    open(p, 'wb').write(bytes(b))
+    res = []
+    rc, out, err = cli(['catalog', '-d', p])
+    if rc != 0 or b'HELLO' not in out:
+        return [('ok', 'dos33:woz2-odd setup', 'a2kit does not read the odd image (nothing to check)', 'catalog')]
+    for name, argv, stdin in [('delete', ['delete', '-d', p, '-f', 'HELLO'], None), ('rename', ['rename', '-d', p, '-f', 'HELLO', '-n', 'HOWDY'], None),
+                              ('lock', ['lock', '-d', p, '-f', 'OTHER'], None), ('put', ['put', '-d', p, '-f', 'THIRD', '-t', 'txt'], b'THIRD\n'),
+                              ('retype', ['retype', '-d', p, '-f', 'HELLO', '-t', 'bin', '-a', '768'], None)]:
+        before = sha(p)
+        rc, out, err = cli(argv, stdin=stdin)
+        after = sha(p)
+        label = f"dos33:woz2-odd {name} (failure while saving)"
+        replay = ' '.join(argv).replace(p, '<odd.woz>')
+        if rc != 0 and after != before:
+            res.append(('fail-modified', label, f'command exited with {rc} but the image file changed (size {os.path.getsize(p)})', replay))
+            open(p, 'wb').write(bytes(b))
+        elif rc != 0:
+            res.append(('ok', label, f'rc={rc}', replay))
+        else:
+            res.append(('accepted', label, 'the command succeeded (nothing to check)', replay))
+    return res
+
 def run_check(ctx):
     d = tempfile.mkdtemp(dir=fw.BUILD)
     specs = cliutil.IMAGES if ctx.tier == 'thorough' else cliutil.IMAGES[:11]
     with ThreadPoolExecutor(8) as ex:
         allres = list(ex.map(one_image, [(d, i, s, ctx.seed) for i, s in enumerate(specs)]))
+    allres.append(unserialisable_image(d))
     shutil.rmtree(d, ignore_errors=True)
     counts = {}
     for res in allres:
